@@ -29,11 +29,11 @@ from ..common import Result, Violation
 NAMES = ["foo", "foo.a", "foo.sub", "fo", "bar.baz"]
 CHECKERS = ["A", "B", None]
 SINGLES = [(n,) for n in NAMES]
-PAIRS = [tuple(c) for c in itertools.combinations(NAMES, 2)]
+PAIRS = [tuple(c) for c in itertools.combinations(NAMES, 2)] + [("fo", "foo")]  # both orders of the string-prefix pair
 MAX_ACTIVE = 2
 
 
-QUICK_PAIRS = [("foo.a", "foo.sub"), ("fo", "bar.baz")]
+QUICK_PAIRS = [("foo.a", "foo.sub"), ("fo", "bar.baz"), ("fo", "foo"), ("foo", "fo")]  # incl. a name that is a mere string prefix of a later / an earlier one
 
 ALPHABET = (
     "operations: install(names, checker) with checkers {spy A, spy B, None} through the routes api(str) / api(old tuple form) / with-block and, while no hook "
@@ -459,15 +459,64 @@ def _run(ctx, tmp, pool, sw):
         common.bind_repo()
         w = _world(tmp)
         keys_done = set()
+        unrepro = []
         viols.sort(key=lambda v: (len(v["replay"]["history"]), v["key"], repr(v["replay"])))
         for v in viols:
             if v["key"] in keys_done or len(keys_done) >= 40:
                 continue
             r1, r2 = replay(v["replay"], _w=w), replay(v["replay"], _w=w)
             if not (r1["violates"] and r2["violates"]):
-                raise common.HarnessError(f"C11: violation {v['key']} did not reproduce on replay: {r1} / {r2}")
+                # The search observed an oracle violation that a freshly reset world does not
+                # reproduce: the outcome of an import depended on state that survives
+                # uninstall() + purging the modules (process-wide state hidden in the hook
+                # machinery).  Every operation the search performed is a legitimate public
+                # operation, so the observation is a violation of the statement ("every order
+                # of install / import / uninstall operations"); it is reported once, under its
+                # own key.
+                unrepro.append(v)
+                continue
             keys_done.add(v["key"])
             out_v.append(Violation(**v))
+        pair = None
+        if unrepro:
+            # look for a replayable witness: a polluting history g such that [g ; reset ; h]
+            # shows the violation of h although [h] alone does not
+            cands = []
+            for u in viols:
+                g = u["replay"]["history"]
+                if g not in cands:
+                    cands.append(g)
+            for u in unrepro[:6]:
+                for g in cands[:150]:
+                    _replay_history(w, g)
+                    r = replay(u["replay"], _w=w)
+                    if r["violates"]:
+                        _replay_history(w, g)
+                        if replay(u["replay"], _w=w)["violates"]:
+                            pair = (g, u)
+                            break
+                if pair:
+                    break
+        if pair:
+            g, u = pair
+            out_v.append(
+                Violation(
+                    key="C11:process-state-leak:" + u["key"].split(":")[1],
+                    what=f"history {u['replay']['history']} behaves correctly in a fresh world but violates the oracle ({u['key']}) when the unrelated history {g} "
+                    "was executed and completely undone (all hooks uninstalled, modules purged) before it: hook state leaks across install calls",
+                    replay=dict(kind="leak-pair", polluter=g, history=u["replay"]["history"], expect=u["replay"].get("expect")),
+                )
+            )
+        elif unrepro:
+            v0 = unrepro[0]
+            out_v.append(
+                Violation(
+                    key="C11:process-state-leak",
+                    what=f"{len(unrepro)} oracle violation(s) observed during the search do not reproduce from a reset world (uninstall all hooks, purge modules): "
+                    f"an import's instrumentation depends on process state left by EARLIER, unrelated install/import operations. First: {v0['key']}: {v0['what']}",
+                    replay=dict(kind="process-state-leak", first=v0["replay"], keys=sorted({u["key"] for u in unrepro})[:20]),
+                )
+            )
     transitions = stats.get("transitions", 0) + (cells_cov or {}).get("transitions", 0)
     cov = dict(
         states=len(seen_all) + (cells_cov or {}).get("states", 0),
@@ -519,12 +568,16 @@ def replay(rep, _w=None):
         state, probs = _cells_run(cw, [list(o) for o in rep["history"]])
         cw.reset()
         return dict(violates=bool(probs), state=state, problems=[list(p) for p in probs])
+    if rep["kind"] == "process-state-leak":
+        return dict(violates=None, note="observed during the search only; see 'first' for the history whose outcome depended on earlier process history")
     own = _w is None
     tmp = None
     if own:
         tmp = tempfile.mkdtemp(prefix="vf_c11r_")
         _w = worlds.ForestWorld(tmp)
     try:
+        if rep["kind"] == "leak-pair":
+            _replay_history(_w, rep["polluter"])
         found, key = _replay_history(_w, rep["history"])
         last = len(rep["history"]) - 1
         exp = tuple(rep.get("expect") or ())
